@@ -514,7 +514,9 @@ static int cabd_read_headers(struct mspack_system *sys,
     if (err || !file->folder) {
       sys->free(file->filename);
       sys->free(file);
-      if (salvage) continue;
+      /* in salvage mode skip entries whose data is bad, but never hide a
+       * failure of the system (read, seek, out of memory) */
+      if (salvage && (!err || err == MSPACK_ERR_DATAFORMAT)) continue;
       return err ? err : MSPACK_ERR_DATAFORMAT;
     }
 
@@ -655,7 +657,7 @@ static int cabd_find(struct mscab_decompressor_p *self, unsigned char *buf,
   struct mspack_system *sys = self->system;
   unsigned char *p, *pend, state = 0;
   unsigned int cablen_u32 = 0, foffset_u32 = 0;
-  int false_cabs = 0;
+  int false_cabs = 0, err;
 
 #if SIZEOF_OFF_T < 8
   /* detect 32-bit off_t overflow */
@@ -742,10 +744,12 @@ static int cabd_find(struct mscab_decompressor_p *self, unsigned char *buf,
             return MSPACK_ERR_NOMEMORY;
           }
           cab->base.filename = filename;
-          if (cabd_read_headers(sys, fh, cab, caboff, self->salvage, 1)) {
+          if ((err = cabd_read_headers(sys, fh, cab, caboff, self->salvage, 1))) {
             /* destroy the failed cabinet */
             cabd_close((struct mscab_decompressor *) self,
                        (struct mscabd_cabinet *) cab);
+            /* running out of memory says nothing about the candidate */
+            if (err == MSPACK_ERR_NOMEMORY) return err;
             false_cabs++;
           }
           else {
